@@ -326,6 +326,25 @@ def _driver_unit(nd, L, mode, frozen=None, delj=0, only_sweep=None):
         active = [not f for f in frozen]
         saved = (Integration._compute_dt, Integration.use_delj_trick)
         Integration.use_delj_trick = bool(delj)
+        dt_args = []
+
+        def check_dt_args():
+            # both drivers must consult the time-step rule once per population and step with that population's own
+            # (grid spacing, nu_i, rates INTO i, gamma_i, h_i): otherwise constant and time-dependent runs step differently
+            env.holds('time-step rule consulted a multiple of %d times (%d)' % (nd, len(dt_args)),
+                      len(dt_args) >= nd and len(dt_args) % nd == 0)
+            for k_, (dx_, nu_, msl, g_, h_) in enumerate(dt_args):
+                i = k_ % nd
+                tag = 'dt rule call %d (pop %d)' % (k_, i + 1)
+                env.same(tag + ': dx', np.asarray(dx_, dtype=object), np.asarray(np.diff(xx), dtype=object))
+                env.eq(tag + ': nu', nu_, nus[i])
+                env.eq(tag + ': gamma', g_, gammas[i])
+                env.eq(tag + ': h', h_, hs[i])
+                want = [m[i + 1, o + 1] for o in range(nd) if o != i] if nd > 1 else [0]
+                env.holds(tag + ': number of migration rates', len(msl) == len(want))
+                if len(msl) == len(want):
+                    # the rule only uses the sum of the rates: compare sums (a permutation is harmless)
+                    env.eq(tag + ': total migration into the population', sum(msl[1:], msl[0]), sum(want[1:], want[0]))
         try:
             if env.symbolic:
                 si = K.sym_integration()
@@ -334,6 +353,7 @@ def _driver_unit(nd, L, mode, frozen=None, delj=0, only_sweep=None):
                 def stub_dt(dx, nu, ms_, gamma, h):
                     # one fresh step size for the whole run (the rule itself is C03's subject); T <= dt
                     dtv[0] += 1
+                    dt_args.append((dx, nu, list(ms_), gamma, h))
                     d = S.R('DT')
                     if dtv[0] == 1:
                         S.CUR.assume(d.t > 0)
@@ -385,6 +405,7 @@ def _driver_unit(nd, L, mode, frozen=None, delj=0, only_sweep=None):
                     if delj:
                         Integration._compute_delj = orig_delj
                 sweeps = list(si.rec.sweeps)
+                check_dt_args()
                 # 1-D constant path goes through tridiag_cython.tridiag directly (no kernel sweep)
                 start = K.ref_inject(phi, grids, T, theta0, active)
                 if nd == 1 and mode == 'const':
@@ -450,8 +471,13 @@ def _driver_unit(nd, L, mode, frozen=None, delj=0, only_sweep=None):
                     env.same('result', out, cur)
             else:
                 K.concrete_modules()
-                Integration._compute_dt = lambda *a: np.inf
+
+                def rec_dt(dx, nu, ms_, gamma, h):
+                    dt_args.append((dx, nu, list(ms_), gamma, h))
+                    return np.inf
+                Integration._compute_dt = rec_dt
                 out = fn(phi.copy(), xx, T, **kw)
+                check_dt_args()
                 if delj:
                     # float replay with the trick on: the constant and the time-dependent driver must agree
                     kw_other = {k_: ((lambda t, v=v_: v) if (mode == 'const' and not isinstance(v_, bool)) else
